@@ -2,7 +2,11 @@
 # copies finished breaker outputs /tmp/seed/cNN-out/m* to /verif/seeded/CNN-m*/ (once)
 for d in /tmp/seed/c*-out/m*; do
   [ -f $d/patch.diff ] && [ -f $d/meta.json ] || continue
-  pid=$(basename $(dirname $d) | sed 's/-out//' | tr a-z A-Z); k=$(basename $d)
+  base=$(basename $(dirname $d)); k=$(basename $d)
+  case $base in
+    *-r2-out) pid=$(echo $base | sed 's/-r2-out//' | tr a-z A-Z); k=r2$k;;
+    *) pid=$(echo $base | sed 's/-out//' | tr a-z A-Z);;
+  esac
   dst=/verif/seeded/$pid-$k
   [ -d $dst ] && continue
   mkdir -p $dst; cp $d/patch.diff $d/meta.json $dst/; cp $d/*_test.go $dst/ 2>/dev/null
